@@ -307,3 +307,18 @@ SPECS["C04"] = dict(
         dict(id="lifecycle", run="^TestC04Lifecycle$", quick=dict(shards=6, checks=150, timeout=600, shrinktime=30), thorough=dict(shards=4, checks=6000, timeout=3400, shrinktime=300)),
     ]),
 )
+
+SPECS["C07"] = dict(
+    level="exploration",
+    technique="property-based testing of real engine sessions (rapid): the C04 history generator plus Dup calls, judged by a before/after descriptor-table comparison, canary socket pairs placed on just-released descriptor numbers, and surviving user-owned duplicates; shutdown under a connect flood",
+    rule="a case is a C04 history (every close cause, closes from inside callbacks, racing causes, second wave, stale requests) with Conn.Dup / Engine.Dup calls, one engine start/stop per case; oracles: /proc/self/fd after Run/Client.Stop returned equals the table before (sockets, epoll, eventfd), "
+         "Unix socket files are gone, descriptors returned by Dup are still open on the same object, and canary socket pairs placed on descriptor numbers right after the framework released them (on the loop goroutine after EventLoop.Close, by another goroutine after OnClose) were neither read, written nor closed by anyone else; "
+         "second generator: 1..8 dialers connect continuously while Stop is requested after a drawn delay; non-trivial = a session with a close requested from inside a callback or racing causes; distinct = distinct case",
+    assumptions=ENGINE_ASSUME + ["descriptor numbers are assigned lowest-free-first by the kernel, which is what puts a canary on a just-released number"],
+    overlay=["verifx/c07"] + LIFE_OVERLAY,
+    max_parallel=12,
+    jobs=engine_jobs("c07", "./verifx/c07", [
+        dict(id="histories", run="^TestC07Histories$", quick=dict(shards=5, checks=300, timeout=600, shrinktime=30), thorough=dict(shards=4, checks=8000, timeout=3400, shrinktime=300)),
+        dict(id="flood", run="^TestC07ShutdownUnderConnects$", quick=dict(shards=1, checks=40, timeout=600, shrinktime=20), thorough=dict(shards=2, checks=1000, timeout=3400, shrinktime=120)),
+    ]),
+)
